@@ -152,7 +152,7 @@ def generate_mpo(I, terms=None, opts_svd=None, N=None, f_map=None) -> MpsMpoOBC:
     # i.e., operators at later sites in the chain are applied first
     # sign to permute to canonical order is calculated in signs
     f_ordered = lambda s0, s1: s0 <= s1
-    signs, sitess, opss, op_patterns = [], [], [], []
+    signs, sitess, opss, op_patterns, kept_terms = [], [], [], [], []
     for term in terms:
         if any(site < 0 or site > N or not isinstance(site, numbers.Integral) for site in term.positions):
             raise YastnError("Hterm: positions should be in 0, 1, ..., N-1.")
@@ -160,7 +160,7 @@ def generate_mpo(I, terms=None, opts_svd=None, N=None, f_map=None) -> MpsMpoOBC:
             raise YastnError("Hterm: operator should be a Tensor with ndim=2 and signature matching identity I at the corresponding site.")
         #
         f_positions = term.positions if f_map is None else [f_map[site] for site in term.positions]
-        signs.append(sign_canonical_order(*term.operators, sites=f_positions, f_ordered=f_ordered))
+        sign = sign_canonical_order(*term.operators, sites=f_positions, f_ordered=f_ordered)
         sites_ops = sorted(zip(term.positions, term.operators), key=itemgetter(0))
         sites, ops = [], []
         for site, group in groupby(sites_ops, key=itemgetter(0)):
@@ -168,11 +168,20 @@ def generate_mpo(I, terms=None, opts_svd=None, N=None, f_map=None) -> MpsMpoOBC:
             op = next(group)[1]
             for el in group:
                 op = op @ el[1]
-            ops.append(ind_list_tensors(op, unique_ops))
+            ops.append(op)
+        if any(op.size == 0 for op in ops):  # a product of operators at some site vanishes; the term is zero
+            continue
+        kept_terms.append(term)
+        signs.append(sign)
+        ops = [ind_list_tensors(op, unique_ops) for op in ops]
         sites.append(N)
         sitess.append(sites)
         opss.append(ind_list(ops, op_patterns))
 
+    terms = kept_terms
+    M = len(terms)
+    if M == 0:  # all terms vanish
+        return 0 * (I.copy() if isinstance(I, MpsMpoOBC) else product_mpo(I, N))
     n_patterns = [[unique_ops[ind].n for ind in ops] for ops in op_patterns]
     acc_n_patterns = [[sym.add_charges(*ns[n:]) for n in range(len(ns) + 1)] for ns in n_patterns]
 
